@@ -1,7 +1,7 @@
 (* C07: splitting restricts the curve exactly; joining adjacent pieces restores it. *)
 From Coq Require Import QArith List Bool Arith.
 From NurbsV Require Import Base.Res Base.QList Spec.KnotSpec Spec.BSpline Model.KV Model.CurveM
-  Model.Ops Model.CurveOps Check.Common Check.Oracle.
+  Model.Ops Model.CurveOps Model.CurveLS Check.Common Check.Oracle.
 Import ListNotations.
 Open Scope Q_scope.
 
@@ -76,7 +76,15 @@ Definition check_jcase (jc : jcase) : verdict :=
         && fun_eq_on j b x (o_umax b) true
     | Err e => negb (Qeqb x (o_umin b)) && exn_eqb e ValueError
     end in
-  mkv true prop.
+  match to_curve a, to_curve b with
+  | Ok ca, Ok cb =>
+      mkv (match c_join ca cb, r with
+           | Ok j', Ok j => ocurve_eqb (of_curve j') j
+           | Err e, Err e' => exn_eqb e e'
+           | _, _ => false
+           end) prop
+  | _, _ => mkv false prop
+  end.
 
 (* split then join everything back: (C, nodes, joined curve, strict) - strict = the junction knots must not
    keep more multiplicity than the original vector had there (relaxed to degree+1 for rational curves:
